@@ -58,6 +58,138 @@ def gcc_E(argv, cwd):
     return p.returncode, toks_of(p.stdout)
 
 
+
+# ------------------------------------------------- 4. trace validation (H2)
+TR = dict(cond=[], inc=[], procs=0, on=False, every=1)     # collected event streams of this run
+
+
+def has_hook(tree):
+    return '\\"e\\":\\"cond\\"' in open(tree + "/preprocess.c").read()
+
+
+def trace_env(tf):
+    return dict(os.environ, CHIBICC_VERIF_TRACE=tf)
+
+
+def ingest_trace(tf, cwd, label):
+    """H2 (+H1 for guard macros) events of one trace file -> TR; one 'reset' per process.  The harness adds the
+    file-system facts (which candidates exist) that the include rules are judged against."""
+    rows = vt.read_ndjson(tf)
+    try:
+        os.unlink(tf)
+    except OSError:
+        pass
+    bypid = {}
+    for r in rows:
+        bypid.setdefault(r.get("pid"), []).append(r)
+
+    def ex(path):
+        return 1 if os.path.isfile(path if os.path.isabs(path) else os.path.join(cwd, path)) else 0
+    for pid in sorted(bypid, key=str):
+        rs = sorted(bypid[pid], key=lambda r: r["seq"])
+        if not any(r.get("e") in ("cond", "inc") for r in rs):
+            continue
+        mmap = [r["m"] for r in rs if r.get("e") == "mapname" and r.get("name") == "macros"]
+        dirs = [r["dir"] for r in sorted((r for r in rs if r.get("e") == "incpath"), key=lambda r: r["i"])]
+        guards = {r["macro"] for r in rs if r.get("e") == "guard"}
+        cond, inc = [dict(e="reset", src=label)], [dict(e="reset", src=label)]
+        for r in rs:
+            e = r.get("e")
+            if e == "cond":
+                cond.append(dict(e="cond", d=r["d"], file=r["file"], line=r["line"], val=r["val"], taken=r["taken"], sk=r["sk"], depth=r["depth"]))
+            elif e == "inc":
+                ldir = os.path.dirname(r["from"]) or "."
+                inc.append(dict(e="inc", form=r["form"], name=r["name"], resolved=r["resolved"], idx=r["idx"], skipped=r["skipped"],
+                                **{"from": r["from"]}, ldir=ldir, dirs=dirs, exl=ex(ldir + "/" + r["name"]),
+                                ex=[ex(x + "/" + r["name"]) for x in dirs]))
+            elif e == "once":
+                inc.append(dict(e="once", file=r["file"]))
+            elif e == "guard":
+                inc.append(dict(e="guard", file=r["file"], macro=r["macro"]))
+            elif e == "hm" and mmap and r["m"] == mmap[0] and r["k"] in guards and r["op"] in ("put", "del"):
+                inc.append(dict(e="def" if r["op"] == "put" else "undef", k=r["k"]))
+        TR["cond"] += cond
+        if len(inc) > 1:
+            TR["inc"] += inc
+        TR["procs"] += 1
+
+
+def validate_stream(ctx, module, evs, label):
+    """TLC checks the event stream against tla/pp/<module>.tla; returns True iff accepted"""
+    tf = os.path.join(ctx.scratch, "trace-%s.ndjson" % label)
+    vt.write_ndjson(tf, evs)
+    res = ctx.tlc("pp", module, module + ".cfg", env=dict(TRACE=tf), workers=1, timeout=1500)
+    if res.ok and res.depth == len(evs) + 1:
+        return True, None, tf
+    res2 = ctx.tlc("pp", module, module + ".cfg", env=dict(TRACE=tf), workers=1, timeout=1500, count=False)   # a rejection must repeat
+    if res2.depth != res.depth or res2.ok != res.ok:
+        raise Infra("trace validation not reproducible (%s: %d vs %d)" % (module, res.depth, res2.depth))
+    if not res.ok and not res.violated:
+        raise Infra("%s failed without a verdict: %s" % (module, res.trace_text()[:500]))
+    return False, res.depth - 1, tf
+
+
+CTL_COND = [dict(e="reset"), dict(e="cond", d="if", file="f.c", line=1, val=1, taken=1, sk=0, depth=1),
+            dict(e="cond", d="else", file="f.c", line=3, val=-1, taken=1, sk=0, depth=1),      # #else taken after a taken #if
+            dict(e="cond", d="endif", file="f.c", line=5, val=-1, taken=0, sk=0, depth=0), dict(e="reset")]
+CTL_INC = [dict(e="reset"), dict(e="inc", form="angle", name="n.h", resolved="b/n.h", idx=1, skipped="none", ldir=".", dirs=["a", "b"],
+                                 exl=0, ex=[1, 1], **{"from": "m.c"})]                          # not the first directory holding n.h
+
+
+def submit_trace_controls(ctx, pool):
+    return [pool.submit(validate_stream, ctx, "CondTrace", CTL_COND, "ctl-cond"),
+            pool.submit(validate_stream, ctx, "IncludeTrace", CTL_INC, "ctl-inc")]
+
+
+def record_sources(ctx, tree):
+    """the repository's own tests (and, thorough, the compiler's sources) through -E with tracing"""
+    srcs = sorted(glob.glob(tree + "/test/*.c"))
+    srcs = vt.subsample(srcs, ctx.seed, 8) if ctx.quick else srcs + sorted(glob.glob(tree + "/*.c"))
+    d = ctx.tmp("srctr")
+
+    def one(src):
+        tf = "%s/%s.trace" % (d, os.path.basename(src))
+        p = vt.run_limited([tree + "/chibicc", "-E", "-Itest", "-Iinclude", "-o", "/dev/null", src], timeout=300, mem_gb=4, cpu_s=60,
+                           cwd=tree, env=trace_env(tf), errors="replace")
+        if p.returncode == 0 and os.path.exists(tf):      # an aborted run legitimately leaves sections open
+            ingest_trace(tf, tree, os.path.basename(src))
+            return 1
+        return 0
+    return sum(vt.pmap(one, srcs, workers=8))
+
+
+def finish_traces(ctx, tree, pool, ctl):
+    out = dict(trace_hook="H2 present")
+    n_src = record_sources(ctx, tree)
+    jobs = []
+    for module, key in (("CondTrace", "cond"), ("IncludeTrace", "inc")):
+        evs = TR[key] + [dict(e="reset", src="end")]
+        if len(evs) < 50:
+            raise Infra("only %d %s events recorded although the hook is present" % (len(evs), key))
+        jobs.append((module, key, evs, pool.submit(validate_stream, ctx, module, evs, key)))
+    for module, key, evs, fut in jobs:
+        ok, at, tf = fut.result()
+        if not ok:
+            bad = evs[at] if at is not None and at < len(evs) else None
+            src = next((e.get("src") for e in reversed(evs[:(at or 0) + 1]) if e.get("e") == "reset"), "?")
+            p = ctx.replay_dir("trace-" + key)
+            os.replace(tf, p + "/trace.ndjson")
+            json.dump(dict(kind="trace", module=module, matched=at, rejected_event=bad, source=src), open(p + "/case.json", "w"), indent=1)
+            if key == "cond":
+                sig = "trace:cond:%s" % (bad or {}).get("d", "end-of-trace")
+            else:
+                sig = "trace:inc:%s:%s" % ((bad or {}).get("form", (bad or {}).get("e", "end")), (bad or {}).get("skipped", "-"))
+            ctx.report(sig, "event %s of %d (process %s) is not a step of Level A: %s" % (at, len(evs), src, bad), p)
+        out["trace_%s_events" % key] = len(evs)
+    for fut, name in zip(ctl, ("#else taken after a taken #if", "second directory chosen although the first holds the file")):
+        if fut.result()[0]:
+            raise Infra("sensitivity control failed: trace spec accepts a doctored event (%s)" % name)
+    ctx.cov["traces_validated_against_impl"] += TR["procs"]
+    out["trace_processes"] = TR["procs"]
+    out["trace_sources"] = n_src
+    return out
+
+
 # ------------------------------------------------------- 1. conditional part
 COND_TXT = {"0": "0", "1": "1", "X": "X", "DX": "defined(X)", "NDX": "!defined X"}
 
@@ -133,10 +265,13 @@ def replay_cond(ctx, tree, cases, batch=150):
                 res[cur].append(t)
         return res
 
-    def run_batch(idx):
+    def run_batch(idx, top=False):
         f = "%s/b%d.c" % (d, idx[0])
         open(f, "w").write(render(idx))
-        rc, out, err = run_E(cc, [f], d)
+        tf = f + ".trace" if (top and TR["on"] and (idx[0] // batch) % TR["every"] == 0) else None
+        rc, out, err = run_E(cc, [f], d, env=trace_env(tf) if tf else None)
+        if tf and rc == 0 and os.path.exists(tf):
+            ingest_trace(tf, d, "cond-batch-%d" % idx[0])
         os.unlink(f)
         if rc == 0:
             r = split(toks_of(out))
@@ -148,7 +283,7 @@ def replay_cond(ctx, tree, cases, batch=150):
         return run_batch(idx[:h]) + run_batch(idx[h:])
 
     chunks = [list(range(j, min(j + batch, len(cases)))) for j in range(0, len(cases), batch)]
-    for res in vt.pmap(run_batch, chunks):
+    for res in vt.pmap(lambda ix: run_batch(ix, True), chunks):
         for i, rc, got, err in res:
             c = cases[i]
             key = "cond:" + "|".join(cond_line(l, 0) for l in c["lines"])
@@ -261,8 +396,11 @@ def replay_incl(ctx, tree, behs, oracle_only=False):
             grc, gg = gcc_E(gargv, cdir + "/d0")
             shutil.rmtree(cdir, ignore_errors=True)
             return i, grc, gg, "", None
-        rc, out, err = run_E(cdir + "/bin/chibicc", argv, cdir + "/d0")
+        tf = cdir + "/trace" if (TR["on"] and i % TR["every"] == 0) else None
+        rc, out, err = run_E(cdir + "/bin/chibicc", argv, cdir + "/d0", env=trace_env(tf) if tf else None)
         got = toks_of(out)
+        if tf and rc == 0 and os.path.exists(tf):
+            ingest_trace(tf, cdir + "/d0", "incl-%s-%d" % (b["fam"], i))
         g = None
         if (rc != 0 or got != b["exp"]) and not settled(incl_sig(b, rc, err, got)):
             g = gcc_E(gargv, cdir + "/d0")
@@ -307,7 +445,7 @@ def submit_incl(ctx, pool):
         for d in ("/usr/local/include", "/usr/include/x86_64-linux-gnu", "/usr/include"):
             if os.path.exists("%s/%s.h" % (d, n)):
                 raise Infra("%s/%s.h exists on this machine; scenario header names would collide" % (d, n))
-    strides = dict(R1=3, R2=16, C=8, G=1, P=1) if q else dict(R1=1, R2=1, C=1, G=1, P=1)
+    strides = dict(R1=4, R2=24, C=8, G=1, P=1) if q else dict(R1=1, R2=1, C=1, G=1, P=1)
     jobs = dict(gen=[], ctl=[])
     for fam, nopt in FAMS:
         out = os.path.join(ctx.scratch, "incl-%s.ndjson" % fam)
@@ -454,7 +592,7 @@ def replay_ifexpr(ctx, tree, exprs, tag, batch=100):
 
 def submit_ifexpr(ctx, pool):
     out = os.path.join(ctx.scratch, "ifexpr.ndjson")
-    cfg = ctx.cfg("pp", "IfExpr_gen.cfg", Seed=ctx.seed, Stride=60 if ctx.quick else 2)
+    cfg = ctx.cfg("pp", "IfExpr_gen.cfg", Seed=ctx.seed, Stride=90 if ctx.quick else 2)
     return dict(out=out, gen=pool.submit(ctx.tlc, "pp", "IfExpr", cfg, env=dict(OUT=out), workers=2 if ctx.quick else 4, timeout=1500))
 
 
@@ -495,15 +633,23 @@ def run(ctx):
     ctx.phase("build done")
     extra = {}
     with concurrent.futures.ThreadPoolExecutor(8) as pool:
+        TR.update(cond=[], inc=[], procs=0, on=has_hook(tree), every=(6 if ctx.quick else 3))
         jc = submit_cond(ctx, pool)
         ji = submit_incl(ctx, pool)
         je = submit_ifexpr(ctx, pool)
+        ctl = submit_trace_controls(ctx, pool) if TR["on"] else None
         extra.update(finish_cond(ctx, tree, jc))
         ctx.phase("cond done")
         extra.update(finish_incl(ctx, tree, ji))
         ctx.phase("include done")
         extra.update(finish_ifexpr(ctx, tree, je))
         ctx.phase("ifexpr done")
+        if TR["on"]:
+            extra.update(finish_traces(ctx, tree, pool, ctl))
+        else:
+            extra["trace_hook"] = "H2 absent in the tree under test: trace validation (CondTrace/IncludeTrace) not performed"
+            ctx.assumptions.append("trace validation skipped: the tree under test has no H2 hook (preprocess.c lacks the \"cond\" event)")
+        ctx.phase("traces done")
     ctx.assumptions += ["Level I models (CondIncl.tla, Include.tla) are hand transcriptions of preprocess.c/main.c; replay judges the real binary",
                         "directive sequences are well nested (ill-nested input is C13's)"]
     return ctx.finish(
@@ -521,6 +667,12 @@ def replay(ctx, path):
         replay_ifexpr(ctx, tree, [tuple(c["expr"])], c["tag"])
     elif c.get("kind") == "incl":
         replay_incl(ctx, tree, [c["beh"]])
+    elif c.get("kind") == "trace":
+        evs = vt.read_ndjson(os.path.join(path, "trace.ndjson"))
+        ok, at, tf = validate_stream(ctx, c["module"], evs, "replay")
+        if not ok:
+            ctx.report("trace:replay:%s" % c["module"], "recorded trace still rejected at event %s: %s" % (at, evs[at] if at < len(evs) else None), path)
+        print("note: this re-validates the RECORDED trace; re-record by running the check against the tree")
     elif c.get("kind") == "tlc":
         ctx.tlc_expect_ok(c["area"], c["module"], c["cfg"], "replayed model check", env=c.get("env"))
     return ctx.finish(rule="replay of one recorded case")
